@@ -447,7 +447,9 @@ translated one, for all inputs.  An edit of the Python (Clear code, width schedu
 `257 - length`, `& 255`, `(a + b) // 2`, `bpp`, `nbytes`, …) breaks one of these proofs. -/
 
 /-- lzw.py: Clear/EOD codes, the initial table (`range(256)` + two `None`s), the reset width, the
-width schedule on the table length, and the decoder's initial reader state. -/
+width schedule on the table length, and the decoder's initial reader state.  Since round 6 the model
+(`feed`, `tableLen`, `tableGet`, `feedGrow`, `lzwInit`, `lzwdecode`) uses the translated constants
+directly - `lzw_rt` is a proof about them; `Lemmas/FiltersLit.lean` unfolds them to the literals. -/
 theorem lzw_translated :
     (∀ st, feed st LZW_CLEAR = .ok { nbits := LZW_NBITS_RESET, init := true, ext := [], prev := some [] } []) ∧
     (∀ st, feed st LZW_EOD = .ok st []) ∧
@@ -461,11 +463,10 @@ theorem lzw_translated :
     lzwInit.nbits = LZW_INIT_NBITS ∧
     (∀ data, lzwdecode data = lzwRunB (8 * data.length + 1) lzwInit data LZW_INIT_BUFF LZW_INIT_BPOS) := by
   refine ⟨fun _ => rfl, fun _ => rfl, ?_, ?_, ?_, fun _ _ _ => rfl, rfl, fun _ => rfl⟩
-  · intro st h; simp [tableLen, h, LZW_FIRST_FREE]
-  · intro st code h hc; simp only [LZW_LITERALS] at hc; simp [tableGet, h, hc]
+  · intro st h; simp [tableLen, h]
+  · intro st code h hc; simp [tableGet, h, hc]
   · intro st code h1 h2
-    simp only [LZW_LITERALS, LZW_FIRST_FREE] at h1 h2
-    have : ¬ code < 256 := by omega
+    have : ¬ code < LZW_LITERALS := by omega
     simp [tableGet, this, h2]
 
 example : feed lzwInit LZW_CLEAR = .ok { nbits := 9, init := true, ext := [], prev := some [] } [] := rfl
